@@ -66,12 +66,16 @@ import random
 
 PID = "C12"
 LEVEL = "proof"
-LEAN_MODULES = ["AsynqModel.Theorems.C12", "AsynqModel.Theorems.C12e"]
+LEAN_MODULES = ["AsynqModel.Theorems.C12", "AsynqModel.Theorems.C12e", "AsynqModel.Theorems.C12b"]
 # HEADLINE: statements with content about the model over ALL histories / all signatures (each hypothesis has a machine-checked
 # necessity witness, see MANIFEST level_note).
 HEADLINE = [
     "AsynqModel.Dedup.C12_spec_holds_partial",            # every history with histOk (per call): model's observations pass `spec`
     "AsynqModel.Dedup.C12_spec_holds_sigs",               # corollary for declarations whose signatures are all Sig.ok
+    # Theorems/C12b.lean: an accepted history of any length and origin is accepted at EVERY position (watchStep from the
+    # watch state of the predecessors + the table-size clause against the size shown before); prefix-closed
+    "AsynqModel.Dedup.C12_spec_every_step",
+    "AsynqModel.Dedup.C12_spec_prefix",
     "AsynqModel.Dedup.C12_spec_needs_histOk",             # necessity of histOk: the model's own run fails `spec` in each conflation
     "AsynqModel.Dedup.C12_histOk_per_call",               # histOk holds on conflation-open signatures when no call has the bad shape
     "AsynqModel.Dedup.C12_flat_implies_per_call",         # the former whole-signature condition implies the per-call one
